@@ -91,6 +91,12 @@ enum Act {
     Abandon(usize),
     /// a new commit (fresh change) on top of x
     New(usize),
+    /// only with `experimental.record-predecessors-in-commit = false` (commit ids do not
+    /// contain the predecessors): rewrite x into a commit identical to its (transitive)
+    /// predecessor p. jj must refuse (the result would be p <- x <- .. <- p, a cycle).
+    Recreate(usize, usize),
+    /// ditto inside one transaction: x -> y -> z -> (y again)
+    TwiceAndBack(usize),
     /// `set_view(view the repository had after step i)` (what `jj op restore` / `jj undo` do);
     /// step 0 is the build
     Restore(usize),
@@ -100,9 +106,12 @@ enum Act {
 struct BuildSpec {
     /// parent lists of the initial commits (indices into this list; empty = child of root)
     parents: Vec<Vec<usize>>,
-    /// false: the commits are written to the store and made visible with `add_head` only, as
-    /// commits imported from Git are: no operation records them
-    tracked: bool,
+    /// per commit; false: the commit is written to the store and made visible with `add_head`
+    /// only, as commits imported from Git are: no operation records it
+    tracked: Vec<bool>,
+    /// the setting `experimental.record-predecessors-in-commit` (default true). With false
+    /// a rewrite can produce the id of an older commit, and the harness tries to.
+    predecessors_in_commit: bool,
 }
 
 #[derive(Clone, Debug, Serialize, Deserialize, PartialEq, Eq)]
@@ -125,6 +134,8 @@ fn act_label(a: &Act) -> &'static str {
         Act::Split(_) => "split",
         Act::Abandon(_) => "abandon",
         Act::New(_) => "new",
+        Act::Recreate(..) => "recreate",
+        Act::TwiceAndBack(_) => "twice-and-back",
         Act::Restore(_) => "restore",
     }
 }
@@ -132,7 +143,11 @@ fn act_label(a: &Act) -> &'static str {
 fn step_label(s: &Step) -> String {
     let acts = |v: &Vec<Act>| v.iter().map(act_label).collect::<Vec<_>>().join("+");
     match s {
-        Step::Build(b) => format!("build{}{}", b.parents.len(), if b.tracked { "" } else { "u" }),
+        Step::Build(b) => format!(
+            "build{}{}",
+            b.tracked.iter().map(|&t| if t { 't' } else { 'u' }).collect::<String>(),
+            if b.predecessors_in_commit { "" } else { "-nopic" }
+        ),
         Step::Tx(a) => format!("tx:{}", acts(a)),
         Step::TxAtInitial(a) => format!("at-initial:{}", acts(a)),
         Step::Fork(a, b) => format!("fork:{}|{}", acts(a), acts(b)),
@@ -191,6 +206,8 @@ struct World {
     clock: i64,
     changes: u32,
     step: usize,
+    /// experimental.record-predecessors-in-commit
+    pic: bool,
 }
 
 enum Stop {
@@ -226,6 +243,9 @@ struct Counters {
     inconclusive: Counter,
     act_panics: Counter,
     states_nontrivial: Counter,
+    other_violations: Counter,
+    recreate_refused_across_ops: Counter,
+    recreate_refused_within_tx: Counter,
 }
 
 struct Shared<'a> {
@@ -233,11 +253,22 @@ struct Shared<'a> {
     c: &'a Counters,
 }
 
+/// Shapes observed on the unchanged tree and reported to the coordinator (an untracked commit
+/// that is reached twice is flushed twice); the vacuity gates stay armed when only these occur.
+const REPORTED_SHAPES: [&str; 2] = ["C46/walk/duplicate-untracked", "C46/walk-multi/duplicate-untracked"];
+
+fn violation(sh: &Shared, signature: &str, description: String, case: Value) {
+    if !REPORTED_SHAPES.contains(&signature) {
+        sh.c.other_violations.inc();
+    }
+    sh.ctx.violation(signature, description, case);
+}
+
 /// Settings whose `debug.commit-timestamp` / `debug.operation-timestamp` are a value of the
 /// harness clock, so that the ids of commits made by jj itself (rebased descendants) and of
 /// operations are a function of the history, two different rewrites never collide on an id
 /// and a rewrite never re-creates an old id (which would be an artificial predecessor cycle).
-fn settings_at(prev: Option<&UserSettings>, ms: i64) -> UserSettings {
+fn settings_at(prev: Option<&UserSettings>, ms: i64, pic: bool) -> UserSettings {
     let secs = ms / 1000;
     if secs >= 86_400 {
         machinery_failure("harness clock overflow");
@@ -253,7 +284,10 @@ fn settings_at(prev: Option<&UserSettings>, ms: i64) -> UserSettings {
     config.add_layer(
         jj_lib::config::ConfigLayer::parse(
             jj_lib::config::ConfigSource::User,
-            &format!("debug.commit-timestamp = \"{ts}\"\ndebug.operation-timestamp = \"{ts}\"\n"),
+            &format!(
+                "debug.commit-timestamp = \"{ts}\"\ndebug.operation-timestamp = \"{ts}\"\n\
+                 experimental.record-predecessors-in-commit = {pic}\n"
+            ),
         )
         .unwrap_or_else(|e| machinery_failure(&format!("config: {e}"))),
     );
@@ -265,8 +299,8 @@ fn settings_at(prev: Option<&UserSettings>, ms: i64) -> UserSettings {
 }
 
 impl World {
-    fn new() -> World {
-        let settings = settings_at(None, 1_000_000);
+    fn new(pic: bool) -> World {
+        let settings = settings_at(None, 1_000_000, pic);
         // the simple on-disk commit backend: the test backend starts a multi-threaded tokio
         // runtime per instance, which would dominate the cost of every reload
         let test_repo =
@@ -286,6 +320,7 @@ impl World {
             clock: 1_000_000,
             changes: 0,
             step: 0,
+            pic,
         };
         w.op_index(repo.operation());
         w
@@ -419,11 +454,19 @@ fn open_loader(w: &World, settings: &UserSettings) -> RepoLoader {
 /// Applies one action; pushes the commits the harness writes (with their ghost) to the table.
 fn apply_act(w: &mut World, mr: &mut MutableRepo, act: &Act, sh: &Shared) -> Result<(), String> {
     let e2s = |e: jj_lib::backend::BackendError| format!("{e}");
+    // commit objects of the table belong to the stores of earlier loaders: fetch them again
+    // from this transaction's store
+    let store = mr.store().clone();
+    let get = |w: &World, s: usize| -> Commit {
+        store
+            .get_commit(w.table[s].id())
+            .unwrap_or_else(|e| machinery_failure(&format!("cannot read commit of slot {s}: {e}")))
+    };
     match act {
         Act::Describe(x) => {
             let t = w.tick();
             let c = mr
-                .rewrite_commit(&w.table[*x])
+                .rewrite_commit(&get(w, *x))
                 .set_description(format!("d{t}"))
                 .set_committer(sig(t))
                 .write()
@@ -434,7 +477,7 @@ fn apply_act(w: &mut World, mr: &mut MutableRepo, act: &Act, sh: &Shared) -> Res
         Act::DescribeTwice(x) => {
             let t = w.tick();
             let c1 = mr
-                .rewrite_commit(&w.table[*x])
+                .rewrite_commit(&get(w, *x))
                 .set_description(format!("d{t}"))
                 .set_committer(sig(t))
                 .write()
@@ -454,7 +497,7 @@ fn apply_act(w: &mut World, mr: &mut MutableRepo, act: &Act, sh: &Shared) -> Res
         Act::Rebase(x, onto) => {
             // rebase_commit() takes the committer timestamp from the settings (this
             // transaction's clock value); the new parents make the id unique
-            let c = rebase_commit(mr, w.table[*x].clone(), vec![w.table[*onto].id().clone()])
+            let c = rebase_commit(mr, get(w, *x), vec![w.table[*onto].id().clone()])
                 .block_on()
                 .map_err(e2s)?;
             w.push(c, vec![*x], true, false);
@@ -462,20 +505,20 @@ fn apply_act(w: &mut World, mr: &mut MutableRepo, act: &Act, sh: &Shared) -> Res
         Act::Squash(into, from) => {
             let t = w.tick();
             let c = mr
-                .rewrite_commit(&w.table[*into])
+                .rewrite_commit(&get(w, *into))
                 .set_predecessors(vec![w.table[*into].id().clone(), w.table[*from].id().clone()])
                 .set_description(format!("d{t}"))
                 .set_committer(sig(t))
                 .write()
                 .block_on()
                 .map_err(e2s)?;
-            mr.record_abandoned_commit(&w.table[*from]);
+            mr.record_abandoned_commit(&get(w, *from));
             w.push(c, vec![*into, *from], true, false);
         }
         Act::Split(x) => {
             let t = w.tick();
             let first = mr
-                .rewrite_commit(&w.table[*x])
+                .rewrite_commit(&get(w, *x))
                 .set_description(format!("d{t}"))
                 .set_committer(sig(t))
                 .write()
@@ -485,7 +528,7 @@ fn apply_act(w: &mut World, mr: &mut MutableRepo, act: &Act, sh: &Shared) -> Res
             let t = w.tick();
             let change = w.fresh_change();
             let second = mr
-                .rewrite_commit(&w.table[*x])
+                .rewrite_commit(&get(w, *x))
                 .clear_rewrite_source()
                 .set_change_id(change)
                 .set_parents(vec![first.id().clone()])
@@ -497,12 +540,11 @@ fn apply_act(w: &mut World, mr: &mut MutableRepo, act: &Act, sh: &Shared) -> Res
             w.push(second, vec![*x], true, false);
         }
         Act::Abandon(x) => {
-            mr.record_abandoned_commit(&w.table[*x]);
+            mr.record_abandoned_commit(&get(w, *x));
         }
         Act::New(x) => {
             let t = w.tick();
             let change = w.fresh_change();
-            let store = mr.store().clone();
             let c = mr
                 .new_commit(vec![w.table[*x].id().clone()], store.empty_merged_tree())
                 .set_change_id(change)
@@ -513,6 +555,63 @@ fn apply_act(w: &mut World, mr: &mut MutableRepo, act: &Act, sh: &Shared) -> Res
                 .block_on()
                 .map_err(e2s)?;
             w.push(c, vec![], true, false);
+        }
+        Act::Recreate(x, p) => {
+            let old = get(w, *p);
+            let r = mr
+                .rewrite_commit(&get(w, *x))
+                .set_parents(old.parent_ids().to_vec())
+                .set_description(old.description())
+                .set_author(old.author().clone())
+                .set_committer(old.committer().clone())
+                .write()
+                .block_on();
+            match r {
+                Err(e) if format!("{e}").contains("already exists") => sh.c.recreate_refused_across_ops.inc(),
+                Err(e) => return Err(e2s(e)),
+                Ok(c) if w.slot_of(c.id()).is_some() => {
+                    return Err(format!(
+                        "cycle: jj recorded the existing commit of slot {p} as rewritten from slot {x}, which was itself rewritten from it"
+                    ));
+                }
+                Ok(_) => machinery_failure("Recreate did not reproduce the old commit id"),
+            }
+        }
+        Act::TwiceAndBack(x) => {
+            let t = w.tick();
+            let c1 = mr
+                .rewrite_commit(&get(w, *x))
+                .set_description(format!("d{t}"))
+                .set_committer(sig(t))
+                .write()
+                .block_on()
+                .map_err(e2s)?;
+            let s1 = w.push(c1.clone(), vec![*x], true, false);
+            let t = w.tick();
+            let c2 = mr
+                .rewrite_commit(&c1)
+                .set_description(format!("d{t}"))
+                .set_committer(sig(t))
+                .write()
+                .block_on()
+                .map_err(e2s)?;
+            let s2 = w.push(c2.clone(), vec![s1], true, false);
+            let r = mr
+                .rewrite_commit(&c2)
+                .set_description(c1.description())
+                .set_committer(c1.committer().clone())
+                .write()
+                .block_on();
+            match r {
+                Err(e) if format!("{e}").contains("already exists") => sh.c.recreate_refused_within_tx.inc(),
+                Err(e) => return Err(e2s(e)),
+                Ok(c) if w.slot_of(c.id()).is_some() => {
+                    return Err(format!(
+                        "cycle: jj recorded the commit of slot {s1} (made in this transaction) as rewritten from slot {s2}, which was itself rewritten from it"
+                    ));
+                }
+                Ok(_) => machinery_failure("TwiceAndBack did not reproduce the old commit id"),
+            }
         }
         Act::Restore(i) => {
             let h = w
@@ -532,7 +631,7 @@ fn apply_act(w: &mut World, mr: &mut MutableRepo, act: &Act, sh: &Shared) -> Res
 fn absorb_op(w: &mut World, op_idx: usize, in_merge: bool, sh: &Shared, history: &[Step]) -> bool {
     let op = w.ops[op_idx].op.clone();
     let Some(map) = op.store_operation().commit_predecessors.clone() else {
-        sh.ctx.violation(
+        violation(sh, 
             "C46/record/operation-without-predecessors",
             format!("operation #{op_idx} stores no commit_predecessors at all"),
             json!({"history": history}),
@@ -556,7 +655,7 @@ fn absorb_op(w: &mut World, op_idx: usize, in_merge: bool, sh: &Shared, history:
             }
         }
         if ready.is_empty() {
-            sh.ctx.violation(
+            violation(sh, 
                 "C46/record/jj-commit-predecessors-unknown",
                 format!(
                     "operation #{op_idx} records commits made by jj whose predecessors / parents are unknown commits: {:?}",
@@ -572,7 +671,7 @@ fn absorb_op(w: &mut World, op_idx: usize, in_merge: bool, sh: &Shared, history:
         let c = store.get_commit(&id).unwrap();
         let same_change = ps.iter().all(|&p| w.table[p].change_id() == c.change_id());
         if ps.is_empty() || !same_change {
-            sh.ctx.violation(
+            violation(sh, 
                 "C46/record/jj-commit-predecessors",
                 format!(
                     "operation #{op_idx} records a commit made by jj (change of slot-like {:?}) with predecessors {ps:?}: \
@@ -606,7 +705,7 @@ fn run_tx(
     // every transaction gets its own clock value (timestamps of the commits jj makes itself,
     // and of the operation): load the base operation again with fresh settings
     let t = w.tick();
-    let settings = settings_at(Some(&w.settings), t);
+    let settings = settings_at(Some(&w.settings), t, w.pic);
     let base = open_loader(w, &settings)
         .load_at(base.operation())
         .block_on()
@@ -617,6 +716,10 @@ fn run_tx(
         match catch(|| apply_act(w, tx.repo_mut(), act, sh)) {
             Ok(Ok(())) => {}
             Ok(Err(e)) => {
+                if e.starts_with("cycle:") {
+                    violation(sh, "C46/cycle/recreated-existing-commit", e, json!({"history": history}));
+                    return Err(Stop::Violation);
+                }
                 if e.contains("already exists") {
                     return Err(Stop::Inconclusive(e));
                 }
@@ -688,7 +791,7 @@ fn run_tx(
 /// Reloads the repo at head from disk (merging concurrent operations with the real code).
 fn reload(w: &mut World, sh: &Shared, history: &[Step]) -> Result<(), Stop> {
     let t = w.tick();
-    w.settings = settings_at(Some(&w.settings), t);
+    w.settings = settings_at(Some(&w.settings), t, w.pic);
     let r = catch(|| {
         open_loader(w, &w.settings).load_at_head().block_on().map_err(|e| {
             let mut s = format!("{e}");
@@ -722,6 +825,41 @@ fn reload(w: &mut World, sh: &Shared, history: &[Step]) -> Result<(), Stop> {
         }
         sh.c.merges.inc();
         if !absorb_op(w, op_idx, true, sh, history) {
+            return Err(Stop::Violation);
+        }
+        // a visible commit that no operation records was made by this merge (it did not
+        // exist before): its evolution must still lead to the commit it was rebased from
+        let mut stack: Vec<CommitId> = repo.view().heads().iter().cloned().collect();
+        let mut seen: HashSet<CommitId> = HashSet::new();
+        while let Some(id) = stack.pop() {
+            if w.slot_of(&id).is_some() || !seen.insert(id.clone()) {
+                continue;
+            }
+            let c = repo
+                .store()
+                .get_commit(&id)
+                .unwrap_or_else(|e| machinery_failure(&format!("cannot read commit: {e}")));
+            stack.extend(c.parent_ids().iter().cloned());
+            let sources: Vec<usize> =
+                (1..w.table.len()).filter(|&s| w.table[s].change_id() == c.change_id()).collect();
+            if sources.is_empty() {
+                machinery_failure("the merged view contains a commit of unknown origin");
+            }
+            let listed: Vec<Option<usize>> = match do_walk(&repo, slice::from_ref(&id), 2 * w.table.len() + 2) {
+                Ok((items, _)) => items.iter().map(|it| w.slot_of(&it.id)).collect(),
+                Err(_) => vec![],
+            };
+            if listed.iter().flatten().any(|s| sources.contains(s)) {
+                machinery_failure("a commit no operation records still has a recorded evolution");
+            }
+            violation(sh, 
+                "C46/walk/missing-source-of-merge-rebased-commit",
+                format!(
+                    "merging the concurrent operations made a new commit of the change of slots {sources:?} (a rebased \
+                     descendant), but walk_predecessors from it lists slots {listed:?}: none of the commits it was rewritten from"
+                ),
+                json!({"history": history}),
+            );
             return Err(Stop::Violation);
         }
     }
@@ -809,7 +947,7 @@ fn check_walk(w: &World, starts: &[usize], kind: &str, sh: &Shared, history: &[S
     let cap = 2 * w.table.len() + 2;
     let mut ok = true;
     let mut report = |clause: &str, msg: String| {
-        sh.ctx.violation(
+        violation(sh, 
             &format!("C46/{kind}/{clause}"),
             format!("walk_predecessors from slots {starts:?}: {msg}"),
             json!({"history": history, "start_slots": starts}),
@@ -1003,7 +1141,7 @@ fn check_accumulate(w: &World, old: usize, new: usize, anc: &[u64], sh: &Shared,
     });
     let got = match r {
         Err(p) => {
-            sh.ctx.violation(
+            violation(sh, 
                 "C46/accumulate/panic",
                 format!("accumulate_predecessors(op #{new}, op #{old}) panicked: {p}"),
                 case,
@@ -1012,7 +1150,7 @@ fn check_accumulate(w: &World, old: usize, new: usize, anc: &[u64], sh: &Shared,
         }
         Ok(Err(e)) => {
             let clause = if matches!(e, WalkPredecessorsError::CycleDetected(_)) { "cycle-error" } else { "error" };
-            sh.ctx.violation(
+            violation(sh, 
                 &format!("C46/accumulate/{clause}"),
                 format!("accumulate_predecessors(op #{new}, op #{old}) failed: {e}"),
                 case,
@@ -1030,7 +1168,7 @@ fn check_accumulate(w: &World, old: usize, new: usize, anc: &[u64], sh: &Shared,
         })
         .collect();
     if got.values().any(|v| v.iter().collect::<HashSet<_>>().len() != v.len()) {
-        sh.ctx.violation(
+        violation(sh, 
             "C46/accumulate/duplicate-predecessor",
             format!("accumulate_predecessors(op #{new}, op #{old}) lists a predecessor twice"),
             case.clone(),
@@ -1045,7 +1183,7 @@ fn check_accumulate(w: &World, old: usize, new: usize, anc: &[u64], sh: &Shared,
             v
         };
         let clause = if anc[new] & !anc[old] == 1u64 << new { "single-forward" } else { "forward" };
-        sh.ctx.violation(
+        violation(sh, 
             &format!("C46/accumulate/{clause}"),
             format!(
                 "accumulate_predecessors(op #{new}, op #{old}) = {:?} (slots), the history composed over the range gives {:?}",
@@ -1110,7 +1248,7 @@ fn run_step(w: &mut World, step: &Step, sh: &Shared, history: &[Step]) -> Result
             let mut tx = base.start_transaction();
             let store = base.store().clone();
             let mut slots: Vec<usize> = vec![];
-            for ps in &spec.parents {
+            for (ps, &tracked) in spec.parents.iter().zip(&spec.tracked) {
                 let t = w.tick();
                 let change = w.fresh_change();
                 let parents: Vec<CommitId> = if ps.is_empty() {
@@ -1125,20 +1263,20 @@ fn run_step(w: &mut World, step: &Step, sh: &Shared, history: &[Step]) -> Result
                     .set_description(format!("d{t}"))
                     .set_author(sig(t))
                     .set_committer(sig(t));
-                let written = if spec.tracked {
+                let written = if tracked {
                     builder.write().block_on()
                 } else {
                     let detached = builder.detach();
                     detached.write_hidden().block_on()
                 };
                 let c = written.unwrap_or_else(|e| machinery_failure(&format!("build failed: {e}")));
-                if !spec.tracked {
+                if !tracked {
                     tx.repo_mut()
                         .add_head(&c)
                         .block_on()
                         .unwrap_or_else(|e| machinery_failure(&format!("build add_head failed: {e}")));
                 }
-                slots.push(w.push(c, vec![], spec.tracked, false));
+                slots.push(w.push(c, vec![], tracked, false));
             }
             let repo = tx
                 .commit("build")
@@ -1181,7 +1319,11 @@ fn run_step(w: &mut World, step: &Step, sh: &Shared, history: &[Step]) -> Result
 /// Replays a history on a fresh repository. The oracle runs after the last step (after every
 /// step when `check_all`). `None`: inconclusive or a violation was reported.
 fn replay(history: &[Step], sh: &Shared, check_all: bool) -> Option<World> {
-    let mut w = World::new();
+    let pic = match history.first() {
+        Some(Step::Build(b)) => b.predecessors_in_commit,
+        _ => machinery_failure("a history must start with Build"),
+    };
+    let mut w = World::new(pic);
     for (i, step) in history.iter().enumerate() {
         w.step = i;
         match run_step(&mut w, step, sh, &history[..=i]) {
@@ -1192,9 +1334,11 @@ fn replay(history: &[Step], sh: &Shared, check_all: bool) -> Option<World> {
             }
             Err(Stop::Violation) => return None,
         }
+        // a state on which the oracle reported something is still extended: a finding must
+        // not hide the histories behind it
         let last = i + 1 == history.len();
-        if (last || check_all) && !check_state(&w, sh, &history[..=i], !check_all) {
-            return None;
+        if last || check_all {
+            check_state(&w, sh, &history[..=i], !check_all);
         }
     }
     Some(w)
@@ -1233,7 +1377,13 @@ fn canonical_key(w: &World) -> String {
 #[derive(Clone, Copy, PartialEq, Eq, PartialOrd, Ord, Debug, Serialize)]
 enum Size {
     None,
+    /// describe the newest visible commit; squash the second newest into it
+    Micro,
+    /// describe / squash (both directions) on the two newest visible commits, split the newest
+    Tiny,
+    /// describe / squash / split / abandon on the two newest visible commits
     Small,
+    /// every action kind on every visible commit (+ describe on the two newest hidden ones)
     Full,
 }
 
@@ -1246,15 +1396,23 @@ struct StepPlan {
 }
 
 /// Single actions enabled for a repository whose visible set is `visible`.
-/// `Small`: describe / squash / split / abandon on the two newest visible commits only.
 fn singles(w: &World, visible: u64, size: Size, restore: &[usize], hidden_targets: bool) -> Vec<Act> {
     let mut v = vec![];
     if size == Size::None {
         return v;
     }
     let mut vis: Vec<usize> = (1..w.table.len()).filter(|&s| visible >> s & 1 == 1).collect();
-    if size == Size::Small && vis.len() > 2 {
+    if size <= Size::Small && vis.len() > 2 {
         vis = vis[vis.len() - 2..].to_vec();
+    }
+    if size == Size::Micro {
+        if let Some(&x) = vis.last() {
+            v.push(Act::Describe(x));
+            if vis.len() >= 2 {
+                v.push(Act::Squash(x, vis[vis.len() - 2]));
+            }
+        }
+        return v;
     }
     for &x in &vis {
         v.push(Act::Describe(x));
@@ -1267,10 +1425,14 @@ fn singles(w: &World, visible: u64, size: Size, restore: &[usize], hidden_target
         }
     }
     for &x in &vis {
-        v.push(Act::Split(x));
+        if size >= Size::Small || Some(&x) == vis.last() {
+            v.push(Act::Split(x));
+        }
     }
-    for &x in &vis {
-        v.push(Act::Abandon(x));
+    if size >= Size::Small {
+        for &x in &vis {
+            v.push(Act::Abandon(x));
+        }
     }
     if size == Size::Full {
         for &x in &vis {
@@ -1303,14 +1465,61 @@ fn singles(w: &World, visible: u64, size: Size, restore: &[usize], hidden_target
     v
 }
 
-/// The reduced alphabet for two-action transactions (no restore / rebase: a transaction that
-/// restores a view or reparents commits while rewrites are pending is not a use of the API
-/// any command makes).
-fn pair_alphabet(w: &World, visible: u64, size: Size) -> Vec<Act> {
-    singles(w, visible, if size == Size::Full { Size::Small } else { size }, &[], false)
-        .into_iter()
-        .filter(|a| size == Size::Full || !matches!(a, Act::Abandon(_)))
-        .collect()
+/// Alphabet of the two-action transactions and of the forks: the single actions one size
+/// smaller (no rebase / new; restore only in full-size forks: a transaction that restores a
+/// view while rewrites are pending is not something any command does).
+fn reduced_alphabet(w: &World, visible: u64, size: Size, restore: &[usize]) -> Vec<Act> {
+    match size {
+        Size::None => vec![],
+        Size::Micro => singles(w, visible, Size::Micro, &[], false),
+        Size::Tiny => singles(w, visible, Size::Tiny, &[], false),
+        Size::Small => singles(w, visible, Size::Small, &[], false)
+            .into_iter()
+            .filter(|a| !matches!(a, Act::Abandon(_)))
+            .collect(),
+        Size::Full => singles(w, visible, Size::Small, restore, false),
+    }
+}
+
+/// Alphabet of the worlds whose commit ids do not contain the predecessors: plain rewrites
+/// plus every attempt to rewrite a commit back into one of its own predecessors.
+fn cycle_steps(w: &World, visible: u64, restore: &[usize]) -> Vec<Step> {
+    let vis: Vec<usize> = (1..w.table.len()).filter(|&s| visible >> s & 1 == 1).collect();
+    let newest: Vec<usize> = vis.iter().rev().take(2).copied().collect();
+    let mut recreate: Vec<Act> = vec![];
+    for &x in vis.iter().rev().take(3) {
+        for p in closure(w, &[x]) {
+            if p != x && w.table[p].change_id() == w.table[x].change_id() {
+                recreate.push(Act::Recreate(x, p));
+            }
+        }
+    }
+    recreate.truncate(4);
+    let mut steps = vec![];
+    for &x in &newest {
+        steps.push(Step::Tx(vec![Act::Describe(x)]));
+    }
+    if let Some(&x) = newest.first() {
+        steps.push(Step::Tx(vec![Act::DescribeTwice(x)]));
+        steps.push(Step::Tx(vec![Act::TwiceAndBack(x)]));
+    }
+    for a in &recreate {
+        steps.push(Step::Tx(vec![a.clone()]));
+    }
+    for &i in restore {
+        steps.push(Step::Tx(vec![Act::Restore(i)]));
+    }
+    let mut alpha: Vec<Act> = newest.first().map(|&x| Act::Describe(x)).into_iter().collect();
+    alpha.extend(recreate.iter().take(2).cloned());
+    for a in &alpha {
+        for b in &alpha {
+            steps.push(Step::Fork(vec![a.clone()], vec![b.clone()]));
+        }
+    }
+    if w.heads.len() >= 2 {
+        steps.push(Step::TxAtInitial(vec![Act::Describe(1)]));
+    }
+    steps
 }
 
 fn enabled_steps(w: &World, plan: &StepPlan) -> Vec<Step> {
@@ -1327,35 +1536,28 @@ fn enabled_steps(w: &World, plan: &StepPlan) -> Vec<Step> {
             restore.push(i);
         }
     }
+    if !w.pic {
+        return cycle_steps(w, visible, &restore);
+    }
     let mut steps = vec![];
-    for a in singles(w, visible, plan.singles, &restore, true) {
+    let single_restore: &[usize] = if plan.singles >= Size::Small { &restore } else { &[] };
+    for a in singles(w, visible, plan.singles, single_restore, true) {
         steps.push(Step::Tx(vec![a]));
     }
-    if plan.pairs != Size::None {
-        let alpha = pair_alphabet(w, visible, plan.pairs);
-        for a in &alpha {
-            for b in &alpha {
-                steps.push(Step::Tx(vec![a.clone(), b.clone()]));
-            }
+    let alpha = reduced_alphabet(w, visible, plan.pairs, &[]);
+    for a in &alpha {
+        for b in &alpha {
+            steps.push(Step::Tx(vec![a.clone(), b.clone()]));
         }
     }
-    if plan.forks != Size::None {
-        let restore_prev: Vec<usize> = if plan.forks == Size::Full {
-            restore.iter().copied().rev().take(1).collect()
-        } else {
-            vec![]
-        };
-        let alpha: Vec<Act> = singles(w, visible, Size::Small, &restore_prev, false)
-        .into_iter()
-        .filter(|a| plan.forks == Size::Full || !matches!(a, Act::Abandon(_)))
-        .collect();
-        for a in &alpha {
-            for b in &alpha {
-                steps.push(Step::Fork(vec![a.clone()], vec![b.clone()]));
-            }
+    let restore_prev: Vec<usize> = restore.iter().copied().rev().take(1).collect();
+    let alpha = reduced_alphabet(w, visible, plan.forks, &restore_prev);
+    for a in &alpha {
+        for b in &alpha {
+            steps.push(Step::Fork(vec![a.clone()], vec![b.clone()]));
         }
     }
-    if plan.at_initial != Size::None && w.heads.len() >= 2 {
+    if w.heads.len() >= 2 {
         for a in singles(w, w.heads[0].visible, plan.at_initial, &[], false) {
             steps.push(Step::TxAtInitial(vec![a]));
         }
@@ -1380,21 +1582,20 @@ fn main() {
 
     let quick = ctx.quick();
     // plan[k] = alphabet of the (k+1)-th step after the build
+    let sp = |singles, pairs, forks, at_initial| StepPlan { singles, pairs, forks, at_initial };
     let plan: Vec<StepPlan> = if quick {
         vec![
-            StepPlan { singles: Size::Full, pairs: Size::Small, forks: Size::Full, at_initial: Size::None },
-            StepPlan { singles: Size::Full, pairs: Size::None, forks: Size::Small, at_initial: Size::Small },
-            StepPlan { singles: Size::Small, pairs: Size::None, forks: Size::Small, at_initial: Size::Small },
+            sp(Size::Full, Size::Small, Size::Full, Size::None),
+            sp(Size::Small, Size::None, Size::Tiny, Size::Tiny),
         ]
     } else {
         vec![
-            StepPlan { singles: Size::Full, pairs: Size::Full, forks: Size::Full, at_initial: Size::None },
-            StepPlan { singles: Size::Full, pairs: Size::Small, forks: Size::Full, at_initial: Size::Full },
-            StepPlan { singles: Size::Full, pairs: Size::None, forks: Size::Small, at_initial: Size::Small },
-            StepPlan { singles: Size::Small, pairs: Size::None, forks: Size::None, at_initial: Size::None },
+            sp(Size::Full, Size::Full, Size::Full, Size::None),
+            sp(Size::Full, Size::Tiny, Size::Tiny, Size::Small),
+            sp(Size::Micro, Size::None, Size::None, Size::None),
         ]
     };
-    // tuning aid: C46_PLAN="FSFN;FNSS" = per step singles/pairs/forks/at-initial as N/S/F
+    // tuning aid: C46_PLAN="FSFN;SNTT" = per step singles/pairs/forks/at-initial as N/M/T/S/F
     let plan: Vec<StepPlan> = match std::env::var("C46_PLAN") {
         Ok(text) => text
             .split(';')
@@ -1404,31 +1605,45 @@ fn main() {
                     .map(|ch| match ch {
                         'F' => Size::Full,
                         'S' => Size::Small,
+                        'T' => Size::Tiny,
+                        'M' => Size::Micro,
                         _ => Size::None,
                     })
                     .collect();
-                StepPlan { singles: sz[0], pairs: sz[1], forks: sz[2], at_initial: sz[3] }
+                sp(sz[0], sz[1], sz[2], sz[3])
             })
             .collect(),
         Err(_) => plan,
     };
+    // initial commits: 1 <- 2 (and 3 beside them); `tracked[i]` = written through the
+    // transaction (recorded by the build operation) or only added as a head like an import
+    let bs = |parents: Vec<Vec<usize>>, tracked: Vec<bool>, predecessors_in_commit: bool| BuildSpec {
+        parents,
+        tracked,
+        predecessors_in_commit,
+    };
     let builds: Vec<BuildSpec> = if quick {
         vec![
-            BuildSpec { parents: vec![vec![], vec![0]], tracked: true },
-            BuildSpec { parents: vec![vec![], vec![0]], tracked: false },
+            bs(vec![vec![], vec![0]], vec![true, false], true),
+            bs(vec![vec![], vec![0]], vec![true, true], false),
         ]
     } else {
         vec![
-            BuildSpec { parents: vec![vec![], vec![0]], tracked: true },
-            BuildSpec { parents: vec![vec![], vec![0]], tracked: false },
-            BuildSpec { parents: vec![vec![], vec![0], vec![]], tracked: true },
+            bs(vec![vec![], vec![0]], vec![true, true], true),
+            bs(vec![vec![], vec![0]], vec![false, false], true),
+            bs(vec![vec![], vec![0], vec![]], vec![true, true, false], true),
+            bs(vec![vec![], vec![0]], vec![true, true], false),
         ]
     };
 
     // determinism gate: one fixed history twice, same canonical key and same commit ids
     {
         let probe = vec![
-            Step::Build(BuildSpec { parents: vec![vec![], vec![0]], tracked: true }),
+            Step::Build(BuildSpec {
+                parents: vec![vec![], vec![0]],
+                tracked: vec![true, false],
+                predecessors_in_commit: true,
+            }),
             Step::Tx(vec![Act::Split(1)]),
             Step::Fork(vec![Act::Describe(1)], vec![Act::Squash(4, 5)]),
             Step::TxAtInitial(vec![Act::Describe(2)]),
@@ -1525,14 +1740,18 @@ fn main() {
         }
     }
     let c = &counters;
-    if ctx.violation_count() == 0 {
+    if c.other_violations.get() == 0 {
         for needed in [
             "act:describe", "act:describe-twice", "act:rebase", "act:squash", "act:split", "act:abandon",
-            "act:new", "act:restore", "tx", "at-initial", "fork", "build",
+            "act:new", "act:restore", "act:recreate", "act:twice-and-back", "tx", "at-initial", "fork", "build",
         ] {
             match classes.get(needed) {
                 None => machinery_failure(&format!("vacuous: action class {needed} never ran")),
-                Some((_, 0)) => machinery_failure(&format!("vacuous: action class {needed} never reached a new state")),
+                // a refused twice-and-back leaves exactly the state of describe-twice, which is
+                // enumerated before it: for that class only "ran" is required
+                Some((_, 0)) if needed != "act:twice-and-back" => {
+                    machinery_failure(&format!("vacuous: action class {needed} never reached a new state"))
+                }
                 _ => {}
             }
         }
@@ -1555,6 +1774,8 @@ fn main() {
             ("acc_nonempty", c.acc_nonempty.get()),
             ("acc_transitive", c.acc_transitive.get()),
             ("acc_nonlinear_range", c.acc_nonlinear_range.get()),
+            ("recreate_refused_across_ops", c.recreate_refused_across_ops.get()),
+            ("recreate_refused_within_tx", c.recreate_refused_within_tx.get()),
         ] {
             if v == 0 {
                 machinery_failure(&format!("vacuous: counter {name} is zero"));
@@ -1590,6 +1811,8 @@ fn main() {
             "commits_made_by_jj_in_transactions_without_callback": c.jj_created_unreported.get(),
             "operation_merges": c.merges.get(),
             "restore_actions_executed": c.restores.get(),
+            "attempts_to_rewrite_a_commit_into_its_own_predecessor_refused_by_jj": c.recreate_refused_across_ops.get(),
+            "same_within_one_transaction_refused_by_jj": c.recreate_refused_within_tx.get(),
             "accumulate_pairs": c.acc_pairs.get(),
             "accumulate_pairs_with_nonempty_result": c.acc_nonempty.get(),
             "accumulate_pairs_needing_transitive_resolution": c.acc_transitive.get(),
